@@ -31,6 +31,7 @@ import (
 	"github.com/volatiletech/authboss/v3/confirm"
 	"github.com/volatiletech/authboss/v3/defaults"
 	"github.com/volatiletech/authboss/v3/lock"
+	"github.com/volatiletech/authboss/v3/otp/twofactor/sms2fa"
 	"github.com/volatiletech/authboss/v3/otp/twofactor/totp2fa"
 	"github.com/volatiletech/authboss/v3/remember"
 	"verif/sim"
@@ -224,6 +225,7 @@ type c20server struct {
 	logs   *lockedBuf
 	mails  *lockedBuf
 	smtp   *fakeSMTP
+	sms    *c20SMS
 	json   bool
 	order  []string // global order of storer operations by account (interleaving signature)
 	omu    sync.Mutex
@@ -328,6 +330,10 @@ func newC20Server(seed int64, useSMTP bool, jitterOn bool, jsonMode bool) (*c20s
 	if err := (&totp2fa.TOTP{Authboss: ab}).Setup(); err != nil {
 		return nil, err
 	}
+	s.sms = &c20SMS{jit: s.jitter}
+	if err := (&sms2fa.SMS{Authboss: ab, Sender: s.sms}).Setup(); err != nil {
+		return nil, err
+	}
 	probe := http.HandlerFunc(func(w http.ResponseWriter, r *http.Request) {
 		uid, _ := ab.CurrentUserID(r)
 		fmt.Fprintf(w, "probe uid=%s", uid)
@@ -346,6 +352,30 @@ func newC20Server(seed int64, useSMTP bool, jitterOn bool, jsonMode bool) (*c20s
 	})
 	s.srv = httptest.NewServer(h)
 	return s, nil
+}
+
+// c20SMS is the concurrent instance's SMS gateway: what was sent to which number, under a lock.
+type c20SMS struct {
+	mu   sync.Mutex
+	sent map[string][]string
+	jit  func()
+}
+
+func (g *c20SMS) Send(ctx context.Context, number, text string) error {
+	g.jit()
+	g.mu.Lock()
+	defer g.mu.Unlock()
+	if g.sent == nil {
+		g.sent = map[string][]string{}
+	}
+	g.sent[number] = append(g.sent[number], text)
+	return nil
+}
+
+func (g *c20SMS) to(number string) []string {
+	g.mu.Lock()
+	defer g.mu.Unlock()
+	return append([]string(nil), g.sent[number]...)
 }
 
 type c20LangKey struct{}
@@ -389,15 +419,16 @@ func (s *c20server) mailText() string {
 // a client and its script
 
 type c20client struct {
-	id   int
-	lang string // the language this client asks for (Accept-Language); the site's catalogue has all of them
-	pid  string
-	jar  map[string]string
-	hc   *http.Client
-	base string
-	tr   []string // transcript
-	srv  *c20server
-	err  string
+	id    int
+	phone string // the number of this client's SMS-2FA account
+	lang  string // the language this client asks for (Accept-Language); the site's catalogue has all of them
+	pid   string
+	jar   map[string]string
+	hc    *http.Client
+	base  string
+	tr    []string // transcript
+	srv   *c20server
+	err   string
 }
 
 func (c *c20client) do(method, path string, form url.Values) (int, string, http.Header) {
@@ -449,6 +480,9 @@ func (c *c20client) do(method, path string, form url.Values) (int, string, http.
 
 // unlang canonicalises the marker of the client's OWN language (every other language's marker stays).
 func (c *c20client) unlang(row string) string {
+	if c.phone != "" {
+		row = strings.ReplaceAll(row, c.phone, "<phone>")
+	}
 	if c.lang == "" {
 		return row
 	}
@@ -596,16 +630,32 @@ func (c *c20client) run() {
 	c.step("protected-halfauth", "GET", "/protected", nil)
 	c.step("logout3", "DELETE", "/auth/logout", nil)
 	c.step("after-logout", "GET", "/protected", nil)
+	// the client's second account has SMS as its second factor: password step (one text to its own phone,
+	// nobody else's), code step
+	smsPid, phone := "sms-"+c.pid, fmt.Sprintf("+1555%04d", c.id)
+	c.phone = phone
+	c.srv.store.Put(&world.User{PID: smsPid, Email: smsPid, Password: sim.Hash4(pw), Confirmed: true, SMSPhone: phone})
+	c.step("sms-login", "POST", "/auth/login", url.Values{"email": {smsPid}, "password": {pw}})
+	texts := c.srv.sms.to(phone)
+	c.tr = append(c.tr, fmt.Sprintf("sms-outbox: %d text(s) to this client's phone", len(texts)))
+	code := "000000"
+	if len(texts) > 0 {
+		code = texts[len(texts)-1]
+	}
+	c.step("sms-validate", "POST", "/auth/2fa/sms/validate", url.Values{"code": {code}})
+	c.step("sms-protected", "GET", "/protected", nil)
+	c.step("logout4", "DELETE", "/auth/logout", nil)
 }
 
 var (
-	reB64   = regexp.MustCompile(`[A-Za-z0-9_\-+/%]{40,}={0,2}`)
-	reHash  = regexp.MustCompile(`\$2a\$04\$[A-Za-z0-9./]{53}`)
-	reOTP   = regexp.MustCompile(`[0-9a-f]{8}-[0-9a-f]{8}-[0-9a-f]{8}-[0-9a-f]{8}`)
-	reTS    = regexp.MustCompile(`\d{4}-\d\d-\d\dT\d\d:\d\d:\d\d(\.\d+)?Z`)
-	reSid   = regexp.MustCompile(`S\d+-\d+`)
-	rePwNum = regexp.MustCompile(`pass\d+`)
-	reB32   = regexp.MustCompile(`\b[A-Z2-7]{32}\b`)
+	reB64     = regexp.MustCompile(`[A-Za-z0-9_\-+/%]{40,}={0,2}`)
+	reHash    = regexp.MustCompile(`\$2a\$04\$[A-Za-z0-9./]{53}`)
+	reOTP     = regexp.MustCompile(`[0-9a-f]{8}-[0-9a-f]{8}-[0-9a-f]{8}-[0-9a-f]{8}`)
+	reTS      = regexp.MustCompile(`\d{4}-\d\d-\d\dT\d\d:\d\d:\d\d(\.\d+)?Z`)
+	reSMSSess = regexp.MustCompile(`"(sms_secret|sms_last)":"\d+"`)
+	reSid     = regexp.MustCompile(`S\d+-\d+`)
+	rePwNum   = regexp.MustCompile(`pass\d+`)
+	reB32     = regexp.MustCompile(`\b[A-Z2-7]{32}\b`)
 )
 
 // canon makes a transcript comparable across clients and runs: the client's identifier, random
@@ -619,6 +669,7 @@ func canon(tr []string, pid string) []string {
 		l = reHash.ReplaceAllString(l, "<hash>")
 		l = reOTP.ReplaceAllString(l, "<otp>")
 		l = reTS.ReplaceAllString(l, "<ts>")
+		l = reSMSSess.ReplaceAllString(l, `"$1":"<n>"`)
 		l = reSid.ReplaceAllString(l, "<sid>")
 		l = reB32.ReplaceAllString(l, "<totp-secret>")
 		l = reB64.ReplaceAllStringFunc(l, func(t string) string {
@@ -1210,7 +1261,7 @@ func C20RaceReports(scratch string) (lib []string, harnessOnly int, total int) {
 func init() {
 	register(&Check{
 		ID: "C20", Level: "exploration",
-		Rule:  "-race build. One initialised instance behind a real net/http server on loopback, shipped defaults everywhere (router, body reader, responder, redirector, error handler, defaults.Logger on a locked writer, defaults.LogMailer on a locked writer in even units and defaults.SMTPMailer talking to an in-process fake SMTP server in odd units), MailNoGoroutine=false so the library's own mail goroutines run. A Localizer that translates every text into the language the request asks for (Accept-Language → request context; three languages spread over the clients; the marker of a client's own language is canonicalised, any other language's marker is a difference); the subject of every mail a client waits for is part of its transcript. 4/16/48 clients, each with its own account and cookie jar, run the script register → login-unconfirmed → confirm (token read from the mail) → wrong login → login(rm) → protected → TOTP setup + 4x QR image (pixels must encode this session's own secret) → otp add → logout → otp login → otp replay → logout → recover start → recover end (token from the mail) → old password → new password(rm) → remember re-auth → protected → logout → protected, concurrently (form mode in half of the units, JSON/API mode — JSON bodies in, JSON 'redirects' out — in the other half), with seeded yields/µs-sleeps injected at every storer and session-store operation and at SMTP accept. Oracles: (1) zero race-detector reports with a frame in github.com/volatiletech/authboss/v3 (GORACE halt_on_error=0 log_path, blocks counted from the logs, deduplicated by the innermost library frame pair); a report without a library frame makes the run inconclusive; (2) every client's transcript (status, Location, content type, body, its server-side session, jar keys, its token-row count, its own storage row after every step; identifiers/tokens/hashes/timestamps canonicalised) equals the transcript of the same script run alone against a fresh instance; (3) 8 anonymous clients x 120 requests refused concurrently by ONE redirect-mode access middleware must each be sent to the login page with their own path and query; (4) the C11 handler programs run in 8 goroutines concurrently; (5) 8 cookie-only browsers rotate their remember cookies 60 (thorough: 400) times each at once: every cookie names its own account, every nonce is handed out once; (6) the library logs no error under concurrency that it does not log when the script runs alone; (7) in the LogMailer's output the writes of each Mailer.Send call are contiguous (two users' messages never mix); (8) SMTP stall probe (every 6th unit): the relay holds the dialogue of one client's mail; a second client's recovery mail must reach the relay meanwhile — violated when 25 consecutive goroutine dumps show a sender waiting in sync.(*Mutex).Lock below SMTPMailer.Send while another sits in net/smtp below the same function (stack evidence, not a deadline); anything else is inconclusive. (9) every 6th unit an account without an e-mail address asks for a recovery mail (mail goroutines on): the process survives — a worker that dies of a panic whose innermost non-runtime frame is library code is a violation, classified by the parent from the worker's output. distinct_nontrivial = distinct interleaving signatures (hash of the global order of storer operations by account).",
+		Rule:  "-race build. One initialised instance behind a real net/http server on loopback, shipped defaults everywhere (router, body reader, responder, redirector, error handler, defaults.Logger on a locked writer, defaults.LogMailer on a locked writer in even units and defaults.SMTPMailer talking to an in-process fake SMTP server in odd units), MailNoGoroutine=false so the library's own mail goroutines run. A Localizer that translates every text into the language the request asks for (Accept-Language → request context; three languages spread over the clients; the marker of a client's own language is canonicalised, any other language's marker is a difference); the subject of every mail a client waits for is part of its transcript. 4/16/48 clients, each with its own account and cookie jar, run the script register → login-unconfirmed → confirm (token read from the mail) → wrong login → login(rm) → protected → TOTP setup + 4x QR image (pixels must encode this session's own secret) → otp add → logout → otp login → otp replay → logout → recover start → recover end (token from the mail) → old password → new password(rm) → remember re-auth → protected → logout → protected, concurrently (form mode in half of the units, JSON/API mode — JSON bodies in, JSON 'redirects' out — in the other half), with seeded yields/µs-sleeps injected at every storer and session-store operation and at SMTP accept. Oracles: (1) zero race-detector reports with a frame in github.com/volatiletech/authboss/v3 (GORACE halt_on_error=0 log_path, blocks counted from the logs, deduplicated by the innermost library frame pair); a report without a library frame makes the run inconclusive; (2) every client's transcript (status, Location, content type, body, its server-side session, jar keys, its token-row count, its own storage row after every step; identifiers/tokens/hashes/timestamps canonicalised) equals the transcript of the same script run alone against a fresh instance; (3) 8 anonymous clients x 120 requests refused concurrently by ONE redirect-mode access middleware must each be sent to the login page with their own path and query; (4) the C11 handler programs run in 8 goroutines concurrently; (5) 8 cookie-only browsers rotate their remember cookies 60 (thorough: 400) times each at once: every cookie names its own account, every nonce is handed out once; (6) the library logs no error under concurrency that it does not log when the script runs alone; (7) in the LogMailer's output the writes of each Mailer.Send call are contiguous (two users' messages never mix); (8) SMTP stall probe (every 6th unit): the relay holds the dialogue of one client's mail; a second client's recovery mail must reach the relay meanwhile — violated when 25 consecutive goroutine dumps show a sender waiting in sync.(*Mutex).Lock below SMTPMailer.Send while another sits in net/smtp below the same function (stack evidence, not a deadline); anything else is inconclusive. (9) every 6th unit an account without an e-mail address asks for a recovery mail (mail goroutines on): the process survives — a worker that dies of a panic whose innermost non-runtime frame is library code is a violation, classified by the parent from the worker's output. Each client also owns an SMS-2FA account: password step (exactly one text to its own phone), code step, protected page. distinct_nontrivial = distinct interleaving signatures (hash of the global order of storer operations by account).",
 		Units: func(t string) int { return tierN(t, 12, 120) },
 		Run:   c20Unit,
 		Floors: func(t string) map[string]int {
